@@ -3,3 +3,4 @@ pub mod isa;
 pub mod program;
 pub mod refasm;
 pub mod formats;
+pub mod invariants;
